@@ -234,6 +234,20 @@ class Ctx:
     def lt(self, a, b):
         if self.sym: return SBool(T(a) < T(b))
         return float(a) < float(b)
+    def lgamma(self, x):
+        if self.sym: return SReal(core.LGAMMA(T(x)))
+        import scipy.special
+        return float(scipy.special.gammaln(x))
+    def grad_of(self, fun, x, h=1e-6):
+        """derivative of the scalar fun at x (x: array of input symbols): term differentiation / central differences"""
+        if self.sym:
+            from . import diff
+            return np.array(diff.grad(fun(x), list(x)), dtype=object)
+        g = np.zeros(len(x))
+        for i in range(len(x)):
+            e = np.zeros(len(x)); e[i] = h
+            g[i] = (float(fun(x + e)) - float(fun(x - e))) / (2 * h)
+        return g
     def pathcond(self):
         """sym: conjunction of decisions so far (for reading thresholds off the path condition)"""
         return list(ST.pc)
